@@ -259,6 +259,10 @@ func runC14(c *eng.Ctx, tier string) {
 				}
 				t := eng.Deref(g.Type())
 				okk := eng.IsNamed(t, "embed", "FS")
+				if !okk {
+					// a table of constants that is only ever read
+					okk, _ = eng.ReadOnlyGlobal(p, g)
+				}
 				c.Check(okk, "R-C14-4", f, in.Pos(), "package-level variable "+g.Name()+" used in "+eng.FName(f), "request handling shares no package-level state between requests (only the embedded, read-only file systems): no pools, caches or counters that concurrent requests could observe through each other", "type "+eng.TypeShort(t))
 			}
 		})
@@ -402,6 +406,12 @@ func kvPairing(c *eng.Ctx, rule string) {
 				insts = append(insts, inst{f, in, val, ver})
 			}
 			n += len(insts) - 1
+			if _, verIsParam := eng.OriginConv(ver).(*ssa.Parameter); verIsParam && !valIsParam {
+				// one construction serving several reads (the number is handed in)
+				if k := len(eng.StaticCallSites(f)); k > 1 {
+					n += k - 1
+				}
+			}
 			for _, it := range insts {
 				f, in, val, ver := it.fn, it.pos, it.val, it.ver
 				site := "SecretValue{Value: " + eng.ValStr(val) + ", Version: " + eng.ValStr(ver) + "}"
@@ -576,7 +586,6 @@ func c14Audit(c *eng.Ctx) {
 		c.Undecided("R-C14-7", nil, 0, "audit.Writer operations", "fewer than 3 sites found")
 	}
 }
-
 
 // calledFromDB: the kv method is called directly by a method of db.DB (its
 // results are handed to the layer that returns them to the caller).
